@@ -6,6 +6,7 @@ pub mod docs;
 pub mod hist;
 pub mod links;
 pub mod names;
+pub mod order;
 pub mod paths;
 pub mod positions;
 pub mod rename;
@@ -22,6 +23,7 @@ pub fn get(id: &str) -> Option<Box<dyn Engine>> {
         "C12" => Some(Box::new(reqs::C12)),
         "C11" => Some(Box::new(sched::C11)),
         "C14" => Some(Box::new(names::C14)),
+        "C16" => Some(Box::new(order::C16)),
         "C17" => Some(Box::new(squash::C17)),
         "C18" => Some(Box::new(symbols::C18)),
         "C15" => Some(Box::new(paths::C15)),
